@@ -37,7 +37,7 @@ Verdict(e) ==
   ELSE IF TC.f2 # AlphaFactor2(TC.alg) THEN "alpha_factor_of_trace_disagrees_with_spec"
   ELSE IF e.aerr > TC.tolfp THEN "alpha_law"
   ELSE IF e.lossless /\ e.escfp > TC.tolfp THEN "lossless_but_escaped"
-  ELSE IF e.lossless /\ TC.alg = "S_ADA" /\ TC.dpos /\ e.fmfp > TC.tolfp THEN "lossless_not_full_matrix_adagrad"
+  ELSE IF e.lossless /\ TC.alg = "S_ADA" /\ TC.dpos /\ e.fmfp > TC.fmtolfp THEN "lossless_not_full_matrix_adagrad"
   ELSE "ok"
 
 TraceInit == /\ tid \in 1..Len(Traces) /\ l = 1 /\ bad = "ok"
